@@ -965,7 +965,7 @@ pub fn gen_c09(r: &mut Rng, id: usize) -> Group {
 
 /// thorough only: EVERY ordered pair of the pool's spellings as a stream `a b a b` under --unique, with what `=`
 /// says about the pair
-pub const C10_POOL_SIZE: usize = 60;
+pub const C10_POOL_SIZE: usize = 69;
 pub fn c10_exhaustive_size() -> usize {
     C10_POOL_SIZE * C10_POOL_SIZE
 }
@@ -1019,7 +1019,10 @@ pub fn gen_c10(r: &mut Rng, id: usize, thorough: bool) -> Group {
                               "0.1", "0.10000000000000002", "3e-1",
                               // different values made of the same scalars in the same order: nested versus hoisted, split versus joined
                               "{\"a\":{\"b\":1}}", "{\"a\":{},\"b\":1}", "[[1,2],3]", "[[1],2,3]", "[[1,2,3]]", "[\"ab\",\"c\"]", "[\"a\",\"bc\"]",
-                              "{\"k\":{\"x\":1,\"y\":2}}", "{\"k\":{\"x\":1},\"y\":2}", "[[],[1]]", "[[1],[]]"];
+                              "{\"k\":{\"x\":1,\"y\":2}}", "{\"k\":{\"x\":1},\"y\":2}", "[[],[1]]", "[[1],[]]",
+                              // integers beyond 32 bits and at 2^53 in the spellings that denote exactly them: the same number
+                              "5000000000", "5e9", "5000000000.0", "4294967295", "4.294967295e9", "[4294967296,1]", "[4.294967296e9,1]",
+                              "9007199254740992", "9007199254740992.0"];
     assert_eq!(spell_pool.len(), C10_POOL_SIZE);
     let n = if forced.is_some() { 4 } else { r.range(0, 40) };
     let mut text = String::new();
@@ -1381,7 +1384,11 @@ pub fn gen_c12(r: &mut Rng, id: usize) -> Group {
     let val_lits: &[&str] = &["1", "\"v\"", "[1, 2]", "{\"q\": 1}", "null"];
     let x = r.pick(val_lits).to_string();
     let uses_var = r.chance(60);
-    let (bound, plain) = match r.below(7) {
+    let (bound, plain) = match r.below(10) {
+        // a reference directly followed by the comma that separates arguments: the name ends there
+        7 => (format!("(map .arr (set \"x\" {x} (push [] :x, {body})))"), format!("(map .arr (push [] {x}, {body}))")),
+        8 => (format!("(map .arr (define \"m\" {body} (push [] @m, @m,1)))"), format!("(map .arr (push [] {body}, {body},1))")),
+        9 => (format!("(map .arr (set \"x\" {x} (? (null? :x),:x,:x)))"), format!("(map .arr (? (null? {x}),{x},{x}))")),
         // a macro defined while :x has one value and USED where :x has been bound again: the body reads the binding current where
         // it is used (macro bodies are late bound: finding F21) — in particular it is not frozen at the definition
         5 => (format!("(map .arr (set \"x\" 1 (define \"m\" (push [] :x {body}) (set \"x\" {x} @m))))"), format!("(map .arr (push [] {x} {body}))")),
@@ -2747,6 +2754,43 @@ pub fn oracle(prop: &str, g: &Group, obs: &[Obs]) -> Option<String> {
                 } else if ch == ' ' || ch == '\t' {
                     if style == "consise" {
                         return Some("white space in a consise row".into());
+                    }
+                }
+            }
+            // pretty: one element or member per line, indentation proportional to the nesting depth (one unit per level, the unit
+            // being whatever the first indented line uses); a closing bracket stands at the depth of its opening line
+            if style == "pretty" && sep == "\n" {
+                let mut depth: usize = 0;
+                let mut unit: Option<usize> = None;
+                let (mut in_str, mut esc) = (false, false);
+                for (ln, line) in text.split('\n').enumerate() {
+                    let indent = line.len() - line.trim_start_matches(' ').len();
+                    let first = line.trim_start_matches(' ').chars().next();
+                    if !in_str {
+                        if let Some(fc) = first {
+                            let want_depth = if fc == ']' || fc == '}' { depth.saturating_sub(1) } else { depth };
+                            if want_depth == 0 {
+                                if indent != 0 {
+                                    return Some(format!("pretty style: line {} is indented by {indent} at nesting depth 0", ln + 1));
+                                }
+                            } else {
+                                let u = *unit.get_or_insert(indent / want_depth.max(1));
+                                if u == 0 || indent != u * want_depth {
+                                    return Some(format!("pretty style: line {} is indented by {indent} at nesting depth {want_depth} (the indentation unit of this output is {u}): not proportional to the nesting", ln + 1));
+                                }
+                            }
+                        }
+                    }
+                    for ch in line.chars() {
+                        if in_str {
+                            if esc { esc = false } else if ch == '\\' { esc = true } else if ch == '"' { in_str = false }
+                        } else if ch == '"' {
+                            in_str = true;
+                        } else if ch == '[' || ch == '{' {
+                            depth += 1;
+                        } else if ch == ']' || ch == '}' {
+                            depth = depth.saturating_sub(1);
+                        }
                     }
                 }
             }
